@@ -143,6 +143,15 @@ def run(tier):
                 boundary.append((head + fill * n)[:n])
     boundary += ["340282366920938463463374607431768211455", "340282366920938463463374607431768211456", "340282366920938463463374607431768211457",
                  "3402823669209384634633746074317682114560", "680564733841876926926749214863536422912", "0x" + "0" * 10 + "f" * 32, "0x" + "0" * 10 + "1" + "f" * 32]
+    # many payload-carrying tokens in a small source (1024 is the first size of the second generation's payload table)
+    for cnt in (1000, 1023, 1024, 1025, 1200, 3000):
+        boundary.append("[" + ", ".join(str(i % 89) for i in range(cnt)) + "]")
+        boundary.append(" ".join("x%d" % i for i in range(cnt)))
+        boundary.append(" ".join('"s%d"' % i for i in range(cnt)))
+    # every raw byte below 0x80 inside a string and a character literal
+    for b_ in list(range(1, 32)) + [127]:
+        if b_ in (10, 13): continue
+        boundary += ['"ab%scd"' % chr(b_), "'%s'" % chr(b_), "x %s y" % chr(b_)]
     boundary += ["9" * n for n in (38, 39, 40, 60)] + ["1" + "0" * n for n in (37, 38, 39, 40)] + ["0x" + "f" * n for n in (31, 32, 33)] + ["0b" + "1" * n for n in (127, 128)]
     for n in range(0, 9):
         hexs = "10FFFF00"[:n] if n else ""
